@@ -16,6 +16,7 @@
 """Functions for manipulating the comment headers of files."""
 
 import logging
+from io import StringIO
 import re
 from typing import NamedTuple, Optional, Sequence, Type, cast
 
@@ -206,7 +207,9 @@ def _extract_shebang(prefix: str, text: str) -> tuple[str, str]:
     tuple of (shebang, reduced_text).
     """
     shebang_lines = []
-    for line in text.splitlines(keepends=True):
+    # Only "\n" ends a line here. str.splitlines() would also cut at form
+    # feeds and other separators.
+    for line in StringIO(text):
         if line.startswith(prefix):
             shebang_lines.append(line)
             text = text.replace(line, "", 1)
